@@ -1,7 +1,7 @@
 /-
 Driver for the `_constrain_ages` model: `lake env lean --run Driver/Constrain.lean < cases`.
 Block format:
-  case <id> / eps <hex64> / iters <n> / fixed <0|1>... / times <hex64>... / edges p c p c ... / end
+  case <id> / eps <hex64> / iters <n> / fixed <0|1>... (or: flags <nat>...) / times <hex64>... / edges p c p c ... / end
 Reply: `<id> <hex64>...` (the output time vector at Float, bit patterns) or `<id> bad-op`.
 -/
 import TsdateVerif.Model.Constrain
@@ -17,8 +17,13 @@ def runCase (blk : List (List String)) : Option String := do
   let id ← (← field blk "case").head?
   let eps ← hexToFloat (← (← field blk "eps").head?)
   let iters ← (← (← field blk "iters").head?).toNat?
-  let fixed ← mapAll (fun s => if s = "1" then some true else if s = "0" then some false else none)
-    (← field blk "fixed")
+  -- either a pre-computed mask (`fixed`, the numba kernel's argument) or the node-flags column (`flags`,
+  -- the argument of the Python wrapper `constrain_ages`), reduced by the model's `fixedOfFlags`
+  let parseMask : List String → Option (List Bool) :=
+    mapAll (fun s => if s = "1" then some true else if s = "0" then some false else none)
+  let fixed ← match field blk "flags" with
+    | some fl => (mapAll String.toNat? fl).map (fun l => (fixedOfFlags l.toArray).toList)
+    | none => (field blk "fixed").bind parseMask
   let times ← mapAll hexToFloat (← field blk "times")
   let es ← pairUp (← mapAll String.toNat? (← field blk "edges"))
   if fixed.length ≠ times.length then none
